@@ -175,8 +175,13 @@ func WorkerMain(t *testing.T) {
 		os.RemoveAll(scratch)
 		os.MkdirAll(scratch, 0o755)
 		runStarted.Store(time.Now().UnixNano())
-		r := RunOnce(t, w, NewTape(seed), false, known, params, scratch)
+		traceDir := os.Getenv("VERIF_TRACE_DIR")
+		r := RunOnce(t, w, NewTape(seed), traceDir != "", known, params, scratch)
 		runStarted.Store(0)
+		if traceDir != "" {
+			os.MkdirAll(traceDir, 0o755)
+			os.WriteFile(filepath.Join(traceDir, fmt.Sprintf("%d.log", idx)), []byte(strings.Join(r.Lines, "\n")+"\n"), 0o644)
+		}
 		res.Runs++
 		res.Steps += int64(r.Stats.Steps)
 		res.SimTimeS += r.Stats.SimTime.Seconds()
@@ -220,6 +225,12 @@ func WorkerMain(t *testing.T) {
 			res.DetChecks++
 			if r2.LogHash != r.LogHash || (r2.Violation != nil) {
 				res.DetFailures = append(res.DetFailures, fmt.Sprintf("seed=%d idx=%d: %x vs %x", seed, idx, r.LogHash, r2.LogHash))
+				for _, tag := range []string{"a", "b"} {
+					os.RemoveAll(scratch)
+					os.MkdirAll(scratch, 0o755)
+					rr := RunOnce(t, w, NewTape(seed), true, known, params, scratch)
+					os.WriteFile(fmt.Sprintf("/dev/shm/verif-det-%s-%d-%s.log", prop, seed, tag), []byte(strings.Join(rr.Lines, "\n")+"\n"), 0o644)
+				}
 			}
 		}
 		if n == 0 && from == 0 && len(res.Samples) == 0 {
